@@ -419,6 +419,8 @@ class Report:
                     self.samples.append(_clip(e))
 
     def finish(self, rule: str, exhaustive: bool = False, extra: dict | None = None) -> int:
+        if getattr(self, "rule_extra", ""):
+            rule = rule + " Also: " + self.rule_extra
         EVID.mkdir(exist_ok=True)
         known = {f["deviation"]: f for f in load_known()}
         for d, items in sorted(self.known.items()):
